@@ -405,6 +405,16 @@ func render(c Case) (string, error) {
 				}
 				s := &dk.Slides[len(dk.Slides)-1]
 				s.Body = append(s.Body, pptxw.Para{Text: b.Text, Bullet: "none"})
+			case "item":
+				if len(dk.Slides) == 0 {
+					dk.Slides = append(dk.Slides, pptxw.Slide{Title: "Untitled slide"})
+				}
+				s := &dk.Slides[len(dk.Slides)-1]
+				bu := "char"
+				if b.Ordered {
+					bu = "auto"
+				}
+				s.Body = append(s.Body, pptxw.Para{Text: b.Text, Level: b.Level, Bullet: bu})
 			}
 		}
 		if len(dk.Slides) == 0 {
@@ -547,7 +557,6 @@ func checkCase(c Case) error {
 				return fmt.Errorf("pptx: body text %q missing\n%s", b.Text, show())
 			}
 		}
-		return nil
 	}
 
 	// ---- list items and paragraphs -------------------------------------------
@@ -628,9 +637,6 @@ func genCase(t *rapid.T) Case {
 		kind := rapid.SampledFrom([]string{"heading", "para", "item", "item", "table", "table"}).Draw(t, "kind")
 		if c.Target == "modeltable" || c.Target == "xlsx" {
 			kind = "table"
-		}
-		if c.Target == "pptx" && kind == "item" {
-			kind = "para"
 		}
 		switch kind {
 		case "heading":
